@@ -154,6 +154,6 @@ RefuteUnnormalised ==
     (KDone /\ Degenerate) => \A j \in 1..NL : \A w \in 1..NW :
         DEq(ktr[j][w], DPow2(ROne, XPathTau(EffE, Ltab, j, w, NL - j + 1)))
 
-KFitsInv == KDone => /\ \A j \in 1..NL : \A w \in 1..NW : DFits(DPow(ktr[j][w], DenLcm(Wts, NG)))
+KFitsInv == KDone => /\ \A j \in 1..NL : \A w \in 1..NW : DFits(ktr[j][w]) /\ DenLcm(Wts, NG) <= 4     \* => |coefficients| of the D-th power sum to <= 4^4
                      /\ \A a \in 1..NA : \A w \in 1..NW : DFits(BEval(kint[a][w], Bcol(w)))
 =============================================================================
